@@ -1,4 +1,4 @@
-From AQ Require Import lib.Base model.H3Parse proofs.H3Chunk proofs.H3Split proofs.H3Loop proofs.H3Recv proofs.H3Fin.
+From AQ Require Import lib.Base model.H3Parse proofs.H3Chunk proofs.H3Split proofs.H3Loop proofs.H3Recv proofs.H3Fin proofs.H3Uni.
 
 (* On the code as pinned, the events of a request stream depend on the chunking: three byte strings for which
    whole delivery and a two-chunk delivery give different normalised events (end-of-stream marker). *)
@@ -90,6 +90,44 @@ Theorem frame_loop_split :
   requiv (rq_loop f fx O cl false st (x ++ b) evs) (resume fx O cl b (rq_loop f fx O cl false st x evs)).
 Proof. exact loop_split. Qed.
 Print Assumptions frame_loop_split.
+
+(* UNIDIRECTIONAL STREAMS (control, push, WebTransport, QPACK encoder / decoder, unknown types), model of the patched code.
+   uni_full = what _receive_stream_data_uni (plus the hand-over of a push stream to the request / push parser) does to
+   one stream and the connection for one delivery: events, stream, connection (settings, max push id, peer stream ids),
+   ids the QPACK decoder reports as unblocked; uni_is_receive_stream_data ties it to the model's _receive_stream_data.
+   For EVERY stream state with stream_ok, connection, byte strings a, b: delivering a ++ b = delivering a, then b;
+   with FIN on the last delivery for every stream that is not the control stream.  Hypotheses on the QPACK oracle
+   (external library): feeding x ++ y to the encoder / decoder stream = feeding x, then y (ds_seq, enc_seq; satisfiable:
+   seq_oracle_example in proofs/H3Uni.v), same oracle in both runs. *)
+Theorem chunking_independent_uni :
+  forall fx O st c a b fin,
+  fx_trunc fx = true -> fx_endmark fx = true -> stream_ok st -> ds_seq O -> enc_seq O ->
+  (fin = true -> is_ctrl st (a ++ b) = false) ->
+  uequiv (uni_full fx O st c (a ++ b) fin)
+         (ubind (uni_full fx O st c a false) (fun st1 c1 => uni_full fx O st1 c1 b fin)).
+Proof. exact uni_two. Qed.
+Print Assumptions chunking_independent_uni.
+
+Theorem uni_is_receive_stream_data :
+  forall fx O c0 sid data fin, is_uni sid = true ->
+  receive_stream_data0 fx O c0 sid data fin =
+  let '(s0, c) := get_or_create c0 sid in
+  match uni_full fx O s0 c data fin with
+  | UF e st' c' unb => unblock fx O (set_streams c' (put_stream st' (c_streams c'))) unb e
+  | UFErr k c' => SErr k c'
+  | UFExn k => SExn k
+  end.
+Proof. exact recv0_uni_full. Qed.
+Print Assumptions uni_is_receive_stream_data.
+
+(* ... and the exception: on the control stream the close CODE depends on whether the FIN comes with the last bytes
+   (the code checks "stream_ended" before it parses the frames of that delivery); both deliveries close the connection. *)
+Theorem chunking_independent_uni_control_fin_refuted :
+  run all_fixed (conn_init false true) [(QStream 3 [0; 13; 1; 1] true, o_quiet)] = [Closed H3_CLOSED_CRITICAL_STREAM] /\
+  run all_fixed (conn_init false true) [(QStream 3 [0; 13; 1; 1] false, o_quiet); (QStream 3 [] true, o_quiet)]
+    = [Closed H3_MISSING_SETTINGS; Events []].
+Proof. exact ctrl_fin_refuted. Qed.
+Print Assumptions chunking_independent_uni_control_fin_refuted.
 
 (* Lemmas used on the way (kept; they were the partial result of the first round), proved for ALL inputs,
    for the model of the patched code (fx_trunc, fx_endmark).
